@@ -92,10 +92,27 @@ RunVerdict(c) ==
    \cup V((allconv /\ N > 0) => c.out.ret = S[N].uend, "run.return_value")
    \cup V(allconv => (Len(c.out.logged) = N /\ \A k \in 1 .. N : c.out.logged[k][2] = S[k].uend), "run.logged_solutions")
 
+\* ---- K multilevel iterations of one step from the spread initial guess (maxiter = K, residual tolerance never met) ----------
+IterVerdict(c) ==
+    LET lv == c.levels
+        F == lv[1]
+        spread == [m \in 1 .. F.M |-> c.u_init]
+        def == MLDefined(lv, c.kind)
+        S == c.out.steps
+    IN BindIn(IF def THEN MLIterate(lv, c.transfers, c.kind, c.nsw, c.u_init, spread, c.K) ELSE spread, LAMBDA expU :
+        V(Len(S) = 1, "iter.one_step")
+   \cup V(~ def \/ Len(S) # 1 \/ S[1].niter = c.K, "iter.iteration_count")
+   \cup V(~ def \/ Len(S) # 1 \/ S[1].U = expU, "iter.multilevel_iteration")
+   \cup V(~ def \/ Len(S) # 1 \/ S[1].uend = EndPoint(F, c.u_init, expU, <<>>), "iter.end_value")
+   \* the transcription is affine in the iterate with an iteration matrix that does not depend on the initial value
+   \cup V(~ def \/ F.c # 0 \/ (\E l \in 1 .. Len(lv) : lv[l].c # 0)
+          \/ MLAffine(lv, c.transfers, c.kind, c.nsw, c.u_init, spread, [m \in 1 .. F.M |-> c.probe]), "iter.affine"))
+
 Init == i = 1
 Next == /\ i <= Len(Cases)
         /\ LET c == Cases[i]
-               v == IF c.mode = "sweep" THEN SweepVerdict(c) ELSE IF c.mode = "run" THEN RunVerdict(c) ELSE TransferVerdict(c)
+               v == IF c.mode = "sweep" THEN SweepVerdict(c) ELSE IF c.mode = "run" THEN RunVerdict(c)
+                    ELSE IF c.mode = "iter" THEN IterVerdict(c) ELSE TransferVerdict(c)
            IN PrintT(ToJson([cid |-> c.id, viol |-> SetToSeq(v)]))
         /\ i' = i + 1
 Spec == Init /\ [][Next]_i
